@@ -46,6 +46,7 @@ func scenarios(thorough bool) []e3drive.Scenario {
 	}
 	add(e3scn.TwoThreadsOneQueue(o), oneq)
 	add(e3scn.TwoThreadsOneQueueNoop(o), oneq+1)
+	add(e3scn.ThreeDrainers(o), oneq+1)
 	om := o
 	om.Magic = true
 	add(e3scn.Commands1Q(3, om), b3)
